@@ -5,10 +5,10 @@ import AnsiProofs.Lemmas.Basic
   results of slicing / concatenation / formatting, and about the CPython primitives of
   `AnsiModel/PyStr.lean` (`startsWith`, `findFrom`, `occurrences`) in terms of core `List` notions.
 
-  Everything lives in `namespace SL` so that the names cannot clash with other lemma files.
+  Everything lives in `namespace StrLikeL` so that the names cannot clash with other lemma files.
 -/
 
-namespace SL
+namespace StrLikeL
 
 /-! ## text of slices, concatenations, formatting -/
 
@@ -1086,4 +1086,121 @@ theorem splitlinesAux_sub (keep : Bool) (s cur : Str) :
 theorem splitlines_sub (s : Str) (keep : Bool) : InOrder (Py.splitlines s keep) s := by
   simpa [Py.splitlines] using splitlinesAux_sub keep s []
 
-end SL
+/-! ## `Py.splitSep` is "repeated `find`" (and its fuel suffices) -/
+
+theorem splitSepAux_zero (sep : Str) (fuel : Nat) (cur rest : Str) :
+    Py.splitSepAux sep fuel cur rest 0 = [cur ++ rest] := by
+  induction fuel generalizing cur rest with
+  | zero => rfl
+  | succ fuel ih =>
+    cases rest with
+    | nil => simp [Py.splitSepAux]
+    | cons c r =>
+      rw [Py.splitSepAux, if_neg (by simp), ih]
+      simp
+
+/-- any fuel above the length of the rest gives the same result -/
+theorem splitSepAux_fuel (sep : Str) (hsep : sep ≠ []) (fuel : Nat) :
+    ∀ (cur rest : Str) (m : Int), rest.length + 1 ≤ fuel →
+      Py.splitSepAux sep fuel cur rest m = Py.splitSepAux sep (rest.length + 1) cur rest m := by
+  induction fuel using Nat.strongRecOn with
+  | _ fuel ih =>
+    intro cur rest m hf
+    cases fuel with
+    | zero => omega
+    | succ f =>
+      cases rest with
+      | nil => simp [Py.splitSepAux]
+      | cons c r =>
+        have hseplen : 0 < sep.length := List.length_pos_iff.mpr hsep
+        simp only [List.length_cons] at hf ⊢
+        rw [Py.splitSepAux, Py.splitSepAux]
+        split
+        · have hd : ((c :: r).drop sep.length).length + 1 ≤ r.length + 1 := by
+            simp only [List.length_drop, List.length_cons]; omega
+          rw [ih f (by omega) [] _ _ (by omega), ih (r.length + 1) (by omega) [] _ _ hd]
+        · rw [ih f (by omega) _ r _ (by omega)]
+
+theorem findFrom_of_le (s sub : Str) (pos a b : Nat) (ha : a ≤ pos) (hb : b ≤ pos) :
+    Py.findFrom s sub pos a = Py.findFrom s sub pos b := by
+  induction s generalizing pos with
+  | nil =>
+    rw [findFrom_nil, findFrom_nil]
+    by_cases h : sub.isEmpty = true
+    · rw [if_pos ⟨ha, h⟩, if_pos ⟨hb, h⟩]
+    · rw [if_neg (fun hc => h hc.2), if_neg (fun hc => h hc.2)]
+  | cons c r ih =>
+    rw [findFrom_cons, findFrom_cons]
+    by_cases h : sub.isPrefixOf (c :: r) = true
+    · rw [if_pos ⟨ha, h⟩, if_pos ⟨hb, h⟩]
+    · rw [if_neg (fun hc => h hc.2), if_neg (fun hc => h hc.2), ih (pos + 1) (by omega) (by omega)]
+
+theorem find_cons_of_not (c : Char) (r sep : Str) (h : ¬ (sep.isPrefixOf (c :: r) = true)) :
+    Py.find (c :: r) sep 0 = (Py.find r sep 0).map (· + 1) := by
+  unfold Py.find
+  rw [findFrom_cons, if_neg (fun hc => h hc.2)]
+  rw [findFrom_of_le r sep (0 + 1) 0 (0 + 1) (by omega) (by omega)]
+  exact findFrom_shift r sep 0 0 1
+
+/-- one round of `split`: cut at the first occurrence of `sep` (if `maxsplit` allows), go on
+    behind it -/
+theorem splitSepAux_find (sep : Str) (hsep : sep ≠ []) (rest : Str) :
+    ∀ (cur : Str) (fuel : Nat) (m : Int), rest.length + 1 ≤ fuel → m ≠ 0 →
+      Py.splitSepAux sep fuel cur rest m =
+        match Py.find rest sep 0 with
+        | none => [cur ++ rest]
+        | some i => (cur ++ rest.take i) ::
+            Py.splitSep (rest.drop (i + sep.length)) sep (m - 1) := by
+  induction rest with
+  | nil =>
+    intro cur fuel m hf hm
+    have : Py.find [] sep 0 = none := by
+      rw [find_none_iff]
+      intro i hi _
+      have : i = 0 := by simpa using hi
+      subst this
+      cases sep with
+      | nil => exact absurd rfl hsep
+      | cons _ _ => rfl
+    rw [this]
+    cases fuel with
+    | zero => omega
+    | succ f => simp [Py.splitSepAux]
+  | cons c r ih =>
+    intro cur fuel m hf hm
+    cases fuel with
+    | zero => omega
+    | succ f =>
+      simp only [List.length_cons] at hf
+      rw [Py.splitSepAux]
+      by_cases hp : sep.isPrefixOf (c :: r) = true
+      · have hfind : Py.find (c :: r) sep 0 = some 0 := find_at _ _ 0 (Nat.zero_le _) (by simpa using hp)
+        have hseplen : 0 < sep.length := List.length_pos_iff.mpr hsep
+        rw [if_pos ⟨hm, by rw [startsWith_eq]; exact hp⟩, hfind]
+        simp only [List.take_zero, List.append_nil, Nat.zero_add]
+        rw [splitSepAux_fuel sep hsep f [] _ _ (by simp only [List.length_drop, List.length_cons]; omega)]
+        rfl
+      · rw [if_neg (by rw [startsWith_eq]; exact fun h => hp h.2), ih _ f m (by omega) hm,
+          find_cons_of_not c r sep hp]
+        cases Py.find r sep 0 with
+        | none => simp
+        | some i =>
+          have : i + 1 + sep.length = (i + sep.length) + 1 := by omega
+          simp only [Option.map_some, List.take_succ_cons, this, List.drop_succ_cons]
+          simp
+
+/-- `str.split(sep, maxsplit)` as the model computes it IS "cut at the first occurrence, continue
+    behind it, at most `maxsplit` times" — in particular the fuel of `Py.splitSep` suffices -/
+theorem splitSep_unfold (s sep : Str) (hsep : sep ≠ []) (m : Int) :
+    Py.splitSep s sep m =
+      if m = 0 then [s]
+      else match Py.find s sep 0 with
+        | none => [s]
+        | some i => s.take i :: Py.splitSep (s.drop (i + sep.length)) sep (m - 1) := by
+  by_cases hm : m = 0
+  · rw [if_pos hm, hm]; exact splitSepAux_zero sep _ [] s
+  · rw [if_neg hm]
+    have := splitSepAux_find sep hsep s [] (s.length + 1) m (Nat.le_refl _) hm
+    simpa [Py.splitSep] using this
+
+end StrLikeL
